@@ -266,6 +266,76 @@ def _eval_item(item):
     return tag, out
 
 
+def forked(fn, arg, limit=600):
+    """fn(arg) in a forked child; a child killed by a signal (native abort / segfault of a SAT engine)
+    or overrunning `limit` seconds yields {"died": ...} instead of taking the worker pool down"""
+    import pickle
+    import select
+    import signal
+    import time
+
+    r, w = os.pipe()
+    pid = os.fork()
+    if pid == 0:
+        code = 0
+        try:
+            os.close(r)
+            devnull = os.open(os.devnull, os.O_WRONLY)
+            os.dup2(devnull, 1)
+            os.dup2(devnull, 2)
+            data = pickle.dumps(("ok", fn(arg)))
+            with os.fdopen(w, "wb") as f:
+                f.write(data)
+        except BaseException as e:  # noqa: report checker errors to the parent, which re-raises
+            try:
+                with os.fdopen(w, "wb") as f:
+                    f.write(pickle.dumps(("err", f"{type(e).__name__}: {e}")))
+            except Exception:
+                code = 1
+        finally:
+            os._exit(code)
+    os.close(w)
+    chunks, end = [], time.time() + limit
+    with os.fdopen(r, "rb") as f:
+        while True:
+            left = end - time.time()
+            if left <= 0:
+                os.kill(pid, signal.SIGKILL)
+                os.waitpid(pid, 0)
+                return {"died": f"no result after {limit} s (killed)"}
+            if select.select([f], [], [], min(left, 5.0))[0]:
+                b = os.read(f.fileno(), 1 << 20)
+                if not b:
+                    break
+                chunks.append(b)
+    _, status = os.waitpid(pid, 0)
+    if os.WIFSIGNALED(status) or not chunks:
+        sig = os.WTERMSIG(status) if os.WIFSIGNALED(status) else None
+        return {"died": f"process killed by signal {sig}" if sig else f"process exited with status {status} without a result"}
+    kind, val = pickle.loads(b"".join(chunks))
+    if kind == "err":
+        raise RuntimeError(f"rel: checker error in forked child: {val}")
+    return val
+
+
+def _run_cfg_args(a):
+    return run_cfg(*a)
+
+
+def _eval_item_guarded(item):
+    """as _eval_item, every configuration in its own forked child: {"exc": "DIED ..."} when the interpreter dies"""
+    tag, base, qtexts, cfgs, timeout = item
+    sig, conds = load_base(base)
+    queries = [mkcond(b, a) for b, a in qtexts]
+    out = {}
+    for system, pm, weakly in cfgs:
+        r = forked(_run_cfg_args, (sig, conds, queries, system, pm, weakly, timeout), limit=max(300, 4 * timeout))
+        if "died" in r:
+            r = {"exc": "DIED " + r["died"]}
+        out[(system, pm, weakly)] = r
+    return tag, out
+
+
 def base_input(base):
     if base[0] == "file":
         return {"base_file": base[1]}
@@ -907,27 +977,6 @@ def probe_engines():
     return {k: [(n, why) for n, cls, why in res if cls == k] for k in ("usable", "defective", "unavailable")}
 
 
-def _guarded_eval(item, timeout=300):
-    """_eval_item in a child process (an engine that aborts the interpreter must not take the pool down)"""
-    code = "import sys, json; sys.path.insert(0, %r); from bounded import rel; it = json.load(sys.stdin); " % VERIF
-    code += "tag, out = rel._eval_item((it[0], rel._untuple(it[1]), [tuple(q) for q in it[2]], [tuple(c) for c in it[3]], it[4])); "
-    code += "print('RESULT ' + json.dumps([[list(k), v] for k, v in out.items()]))"
-    try:
-        p = subprocess.run([sys.executable, "-W", "ignore", "-c", code], input=json.dumps(item), capture_output=True, text=True, timeout=timeout, env=dict(os.environ, INFOCF_LOGLEVEL="CRITICAL"))
-    except subprocess.TimeoutExpired:
-        return item[0], {tuple(c): {"exc": "child process timed out"} for c in item[3]}
-    for l in p.stdout.splitlines():
-        if l.startswith("RESULT "):
-            return item[0], {tuple(k): v for k, v in json.loads(l[7:])}
-    return item[0], {tuple(c): {"exc": f"child process died (exit {p.returncode})"} for c in item[3]}
-
-
-def _untuple(b):
-    if b[0] == "file":
-        return ("file", b[1])
-    return ("text", tuple(b[1]), tuple(tuple(t) for t in b[2]))
-
-
 def _nontrivial_queries(qtexts):
     """indices of queries for which both A,B and A,!B are classically satisfiable"""
     out = set()
@@ -964,7 +1013,7 @@ def run_c11(tier, seed):
             items.append(((ci, k), c["base"], c["qtexts"], cfgs[k : k + step], c["timeout"]))
     items.sort(key=lambda it: cases[it[0][0]]["size"], reverse=True)
     per_case = {}
-    for (ci, _), out in pmap(_eval_item, items):
+    for (ci, _), out in pmap(_eval_item_guarded, items):
         per_case.setdefault(ci, {}).update(out)
     nontriv = dict(pmap(_c11_nontrivial, [(ci, c["qtexts"]) for ci, c in enumerate(cases)]))
     evaluations, fps, violations, rejected = 0, set(), [], 0
@@ -1012,40 +1061,38 @@ def run_c11(tier, seed):
                 fps.add((c["id"], qtext(c["qtexts"][qi])))
             if len(samples) < 2:
                 samples.append(dict(base_id=c["id"], queries=[qtext(q) for q in c["qtexts"][:4]], answers={f"{s}/{pm}/{'weakly' if w else 'strict'}": r["ans"][:4] for (s, pm, w), r in sorted(res.items())[:8] if "ans" in r}))
-    # engines with which RC2 constructs but does not work: guarded child processes, a few small bases
+    # engines with which RC2 constructs but does not work: a few small bases (strict mode)
     if defective:
         small = [c for c in cases if c["group"] in ("birds", "AO")][:4] or cases[:2]
-        for c in small:
-            for e in defective:
-                for s in ("system-w", "lex_inf", "c-inference"):
-                    cfgs = [(s, "rc2", False), (s, f"rc2-{e}", False)]
-                    _, out = _guarded_eval((0, list(c["base"]), c["qtexts"], cfgs, 60))
-                    ref, r = out[cfgs[0]], out[cfgs[1]]
-                    if "refused" in ref:
-                        continue
-                    evaluations += 1
-                    if "ans" in ref and "ans" in r and ref["ans"] == r["ans"]:
-                        continue
-                    extra["violations_total"] += 1
-                    key = f"{s}/strict: rc2 vs rc2-{e} (RC2 constructs with {e} but the engine is defective under RC2)"
-                    extra["disagreeing_backends"][key] = extra["disagreeing_backends"].get(key, 0) + 1
-                    if extra["disagreeing_backends"][key] <= 1:
-                        violations.append(
-                            dict(
-                                module="rel",
-                                kind="c11-backend",
-                                input=dict(base_input(c["base"]), base_id=c["id"], queries=[qtext(q) for q in c["qtexts"]], system=s, weakly=False, backends=["rc2", f"rc2-{e}"], engine_class="constructs-but-defective", guarded=True),
-                                expected="equal answers",
-                                observed={"rc2": ref, f"rc2-{e}": r},
-                            )
-                        )
+        ditems = [((si, s, e), c["base"], c["qtexts"], [(s, "rc2", False), (s, f"rc2-{e}", False)], 60) for si, c in enumerate(small) for e in defective for s in ("system-w", "lex_inf", "c-inference")]
+        for (si, s, e), out in pmap(_eval_item_guarded, ditems):
+            c = small[si]
+            ref, r = out[(s, "rc2", False)], out[(s, f"rc2-{e}", False)]
+            if "refused" in ref:
+                continue
+            evaluations += 1
+            if "ans" in ref and "ans" in r and ref["ans"] == r["ans"]:
+                continue
+            extra["violations_total"] += 1
+            key = f"{s}/strict: rc2 vs rc2-{e} (RC2 constructs with {e} but the engine is defective under RC2)"
+            extra["disagreeing_backends"][key] = extra["disagreeing_backends"].get(key, 0) + 1
+            if extra["disagreeing_backends"][key] <= 1:
+                violations.append(
+                    dict(
+                        module="rel",
+                        kind="c11-backend",
+                        input=dict(base_input(c["base"]), base_id=c["id"], queries=[qtext(q) for q in c["qtexts"]], system=s, weakly=False, backends=["rc2", f"rc2-{e}"], engine_class="constructs-but-defective"),
+                        expected="equal answers",
+                        observed={"rc2": ref, f"rc2-{e}": r},
+                    )
+                )
     return dict(
         evaluations=evaluations,
         fingerprints=fps,
         violations=violations,
         samples=samples,
         rejected=rejected,
-        scope=_scope_text(cases) + f"; system-w and lex_inf (strict, extended) under rc2, z3 and rc2-<e> for the {len(usable)} usable engines, c-inference (strict) under rc2 and every rc2-<e>; bases of size >= 45 with 5 sampled engines; engines with which RC2 constructs but fails a 3-variable optimisation ({', '.join(defective) or 'none'}) in guarded child processes on a few small bases",
+        scope=_scope_text(cases) + f"; system-w and lex_inf (strict, extended) under rc2, z3 and rc2-<e> for the {len(usable)} usable engines, c-inference (strict) under rc2 and every rc2-<e>; bases of size >= 45 with 5 sampled engines; engines with which RC2 constructs but fails a 3-variable optimisation ({', '.join(defective) or 'none'}) on a few small bases (every configuration runs in a forked child, so an engine that aborts the interpreter is recorded, not fatal)",
         rule="one answer vector per (base, query batch, operator, mode, back-end); judged against the vector of the default back-end rc2 on the rows decided by both; a case (base, query) is non-trivial when both A,B and A,!B are satisfiable, i.e. the operator cannot answer without its optimisation back-end",
         extra=extra,
     )
@@ -1056,10 +1103,7 @@ def _replay_c11(v):
     base = input_base(i)
     q = [tuple(split_text(t)) for t in i["queries"]]
     cfgs = [(i["system"], pm, i["weakly"]) for pm in i["backends"]]
-    if i.get("guarded"):
-        _, out = _guarded_eval((0, list(base), q, cfgs, 60))
-    else:
-        _, out = _eval_item((0, base, q, cfgs, 0))
+    _, out = _eval_item_guarded((0, base, q, cfgs, 0))
     a, b = out[cfgs[0]], out[cfgs[1]]
     if "ans" in a and "ans" in b:
         bad = any(x != y for x, y, t1, t2 in zip(a["ans"], b["ans"], a["to"], b["to"]) if not (t1 or t2))
